@@ -365,10 +365,12 @@ def render(nodes, rnd, indent=""):
             imp = rnd.choice([" !important", " !important", "!important", " ! important", " !/* i */important", " ! IMPORTANT"]) if n["imp"] else ""
             # white space or a comment between a property name and its colon, and none after it, are all the same declaration
             colon = rnd.choice([": ", ": ", ": ", ":", " : ", "\n:", "/**/:", " :", " /* c */ : "]) if n.get("oddcolon", True) else ": "
+            # (property names are ASCII case-insensitive: one rule in ten writes them in another letter case)
+            pcase = rnd.choice([str.upper, str.title, str.capitalize]) if rnd.random() < 0.1 and n.get("oddcase", True) else (lambda x: x)
             if n["text"] is not None:
                 if n["dup"]:
                     decls.insert(0, "color: #010203" + imp)      # an earlier declaration that the last one overrides
-                decls.insert(rnd.randrange(len(decls) + 1) if not n["dup"] else len(decls), f"color{colon}{expr_css(n['text'])}{imp}")
+                decls.insert(rnd.randrange(len(decls) + 1) if not n["dup"] else len(decls), f"{pcase('color')}{colon}{expr_css(n['text'])}{imp}")
                 if n.get("samecolor"):
                     # other properties whose name ends in "color", and a comment, carrying the very same value text
                     tv = expr_css(n["text"])
@@ -377,7 +379,7 @@ def render(nodes, rnd, indent=""):
                         decls.insert(rnd.randrange(len(decls) + 1), extra)
             if n["bg"] is not None:
                 pos_bg = rnd.randrange(len(decls) + 1)
-                decls.insert(pos_bg, f"background-color{colon if rnd.random() < 0.5 else ': '}{expr_css(n['bg'])}")
+                decls.insert(pos_bg, f"{pcase('background-color')}{colon if rnd.random() < 0.5 else ': '}{expr_css(n['bg'])}")
                 if n.get("dupbg"):
                     # an earlier background-color declaration of the opposite polarity that the last one overrides
                     other = "#101010" if refs.wcag_lum(refs.css_read_opaque(expr_css(n["bg"])) or (255, 255, 255)) > 0.3 else "#fafafa"
@@ -662,7 +664,7 @@ def flatten_sheet(css_text, ids):
         for d in lst:
             if d.type == "declaration":
                 items.append({"k": "decl", "a": ids(("name", d.name)), "b": ids(("val", norm_tokens(d.value))), "imp": bool(d.important),
-                              "rule": rule_id, "name": d.name if d.name.startswith("--") else ("color" if d.name == "color" else "")})
+                              "rule": rule_id, "name": d.name if d.name.startswith("--") else ("color" if d.lower_name == "color" else "")})
             elif d.type == "comment":
                 items.append({"k": "comment", "a": ids(("comment", d.value)), "b": 0, "imp": False, "rule": rule_id, "name": ""})
             elif d.type == "at-rule":
@@ -733,7 +735,7 @@ def comment_audit(css_in, css_out):
 
     def colour_values(rule):
         return [tinycss2.serialize(d.value).strip() for d in tinycss2.parse_declaration_list(rule.content, skip_whitespace=True, skip_comments=True)
-                if d.type == "declaration" and d.name == "color"]
+                if d.type == "declaration" and d.lower_name == "color"]
 
     known = Counter()
     rin = list(rules(tinycss2.parse_stylesheet(css_in, skip_whitespace=True, skip_comments=False), True))
@@ -795,7 +797,7 @@ def effective_colours(css_text, prop="color"):
             if n.type == "qualified-rule":
                 col = None
                 for d in tinycss2.parse_declaration_list(n.content, skip_whitespace=True, skip_comments=True):
-                    if d.type == "declaration" and d.name == prop:
+                    if d.type == "declaration" and d.lower_name == prop:
                         col = tinycss2.serialize(d.value).strip()
                 if col is not None:
                     out[sel_key(tinycss2.serialize(n.prelude))] = res(("lit", col))
